@@ -34,7 +34,7 @@ for nid in sorted(os.listdir(f"{VERIF}/negative")):
         env = dict(os.environ, VERIF_REPLAY_DIR=f"/tmp/replays_negative/{nid}")
         p = subprocess.run([f"{VERIF}/check", prop, "--tier", "quick", "--src", f"{wt}/src"],
                            capture_output=True, text=True, env=env, timeout=1800)
-        runs = re.search(r"runs=(\d+)", p.stdout)
+        runs = re.search(r"\] runs=(\d+)", p.stdout)
         verdict = {0: "silent", 1: "FALSE-ALARM", 2: "harness-error"}.get(p.returncode, "?")
         results[nid] = {"property": prop, "verdict": verdict, "exit": p.returncode, "tests": tests,
                         "runs": int(runs.group(1)) if runs else None, "wall_s": round(time.time() - t0, 1),
